@@ -96,3 +96,82 @@ Definition holds_tv (c : tcase) : bool :=
                end
   | OOther => false
   end.
+
+(* ------------------------------------------------ sessions on one filter object *)
+Inductive stepobs :=
+| SOErr (name : string)                       (* the step raised                          *)
+| SORun (p : tcaptured) (tr : list event)     (* program text and the events of this call *)
+| SOSeen (num den : list (Z * bool))          (* filt.numpoly / filt.denpoly              *)
+| SOOther.
+
+Record scase := SCase {
+  s_expr : fexp; s_srcs : list srcdata; s_zero : Qc; s_steps : list sstep; s_obs : list stepobs }.
+
+Definition zbl_eqb (a b : list (Z * bool)) : bool := list_eqb zb_eqb a b.
+Definition step_agrees (o : stepobs) (m : sobs) : bool :=
+  match o, m with
+  | SOErr n, SRes (RBuild e) => String.eqb n (berr_name e)
+  | SOErr n, SRes (RCall e) => String.eqb n (exn_name e)
+  | SORun (TCaptured g') tr', SRes (RRun g tr) => tgen_eqb g' g && list_eqb event_eqb tr' tr
+  | SOSeen n d, SSeen n' d' => zbl_eqb n n' && zbl_eqb d d'
+  | _, _ => false
+  end.
+
+Fixpoint all2 {A B} (f : A -> B -> bool) (a : list A) (b : list B) : bool :=
+  match a, b with
+  | [], [] => true
+  | x :: a', y :: b' => f x y && all2 f a' b'
+  | _, _ => false
+  end.
+
+Definition corr_ses (c : scase) : bool :=
+  match run_session (sources_of (s_srcs c)) (s_expr c) (s_steps c) (s_zero c) with
+  | Some l => all2 step_agrees (s_obs c) l
+  | None => false
+  end.
+
+Fixpoint count_y (tr : list event) : nat :=
+  match tr with [] => 0%nat | EvYield _ :: r => S (count_y r) | _ :: r => count_y r end.
+
+(* the property on a session: every call, whenever all sources stand at the same instant n
+   (every earlier call was stopped by its consumer after fuel outputs), must be the call of
+   the SAME expression from the instant n on; a refusal is accepted only where the frozen
+   filter is refused; the object keeps its shape *)
+Definition step_expr (e : fexp) (st : sstep) : fexp :=
+  match st with
+  | SShiftCall k _ => FMul e (FBase [(Z.of_nat k, CNum 1%Qc)] [(0%Z, CNum 1%Qc)])
+  | _ => e
+  end.
+Definition step_fuel (st : sstep) : nat := match st with SCall f => f | SShiftCall _ f => f | SLook => 0%nat end.
+
+Fixpoint holds_steps (S : sources) (e : fexp) (zero : Qc) (steps : list sstep) (obs : list stepobs)
+                     (n : option nat) : bool :=
+  match steps, obs with
+  | [], [] => true
+  | SLook :: sr, SOSeen nu de :: orr =>
+      match frozen_at S e 0 with
+      | BOk F _ => same_shape nu (shape_of (t_num F)) && same_shape de (shape_of (t_den F))
+      | BErr _ => true
+      end && holds_steps S e zero sr orr n
+  | st :: sr, o :: orr =>
+      match n with
+      | None => true                               (* the sources are no longer in step: no claim *)
+      | Some n0 =>
+          let e' := step_expr e st in
+          match o with
+          | SORun _ tr =>
+              spec_run_at S e' MNone zero (step_fuel st) n0 tr &&
+              holds_steps S e zero sr orr (if Nat.eqb (count_y tr) (step_fuel st) then Some (n0 + step_fuel st)%nat else None)
+          | SOErr _ =>
+              match frozen_at S e' n0 with
+              | BErr _ => true
+              | BOk F _ => noncausal F || zero_gain F
+              end && holds_steps S e zero sr orr n
+          | _ => false
+          end
+      end
+  | _, _ => false
+  end.
+
+Definition holds_ses (c : scase) : bool :=
+  holds_steps (sources_of (s_srcs c)) (s_expr c) (s_zero c) (s_steps c) (s_obs c) (Some 0%nat).
